@@ -21,6 +21,7 @@ from ..db import (
     ArchiveFile,
     ArchiveFileCopy,
     ArchiveFileImportRequest,
+    database_proxy,
     utcnow,
 )
 from ..io import ioutil
@@ -301,54 +302,58 @@ def _import_file(
             import_request_done(req, "unregistered")
             return
 
-    try:
-        copy = ArchiveFileCopy.get(file=file_, node=node.db)
-        # If we're importing a file that's missing (has_file == N but
-        # wants_file == Y), set has_file='M' to trigger a integrity check.
-        # If it's recorded as having been properly removed, though, just
-        # set it to 'Y' and assume it's good now.
-        if copy.wants_file == "Y":
-            copy.has_file = "M"
-            log.warning(
-                f'Imported missing file "{path}" on node {node.name}.  Marking suspect.'
-            )
-        else:
-            copy.has_file = "Y"
-            copy.wants_file = "Y"
-            log.info(f'Imported file copy "{path}" on node "{node.name}".')
-        copy.ready = True
-        copy.last_update = utcnow()
-        copy.save()
-    except pw.DoesNotExist:
-        # No existing file copy; create a new one.
+    with database_proxy.atomic():
         try:
-            copy = ArchiveFileCopy.create(
-                file=file_,
-                node=node.db,
-                has_file="Y",
-                wants_file="Y",
-                ready=True,
-                size_b=node.io.filesize(path, actual=True),
-                last_update=utcnow(),
-            )
-            log.info(f'Imported file copy "{path}" on node "{node.name}".')
-        except pw.IntegrityError:
-            log.debug("ArchiveFileCopy created by another worker!")
-            # The ArchiveFileCopy record has been created by someone else
-            # between our initial .get() and the subsequent .create().
-            #
-            # In this case, we assume another worker from _this_ daemon
-            # has just imported the file, likely due to multiple idential
-            # import requests, so just mark the request we're working on as
-            # completed and let the other worker deal with fixing up the
-            # copy and doing all the post-import stuff
-            import_request_done(req, "duplicate")
-            return
+            copy = ArchiveFileCopy.get(file=file_, node=node.db)
+            # If we're importing a file that's missing (has_file == N but
+            # wants_file == Y), set has_file='M' to trigger a integrity check.
+            # If it's recorded as having been properly removed, though, just
+            # set it to 'Y' and assume it's good now.
+            if copy.wants_file == "Y":
+                copy.has_file = "M"
+                log.warning(
+                    f'Imported missing file "{path}" on node {node.name}.  Marking suspect.'
+                )
+            else:
+                copy.has_file = "Y"
+                copy.wants_file = "Y"
+                log.info(f'Imported file copy "{path}" on node "{node.name}".')
+            copy.ready = True
+            copy.last_update = utcnow()
+            copy.save()
+        except pw.DoesNotExist:
+            # No existing file copy; create a new one.
+            try:
+                copy = ArchiveFileCopy.create(
+                    file=file_,
+                    node=node.db,
+                    has_file="Y",
+                    wants_file="Y",
+                    ready=True,
+                    size_b=node.io.filesize(path, actual=True),
+                    last_update=utcnow(),
+                )
+                log.info(f'Imported file copy "{path}" on node "{node.name}".')
+            except pw.IntegrityError:
+                log.debug("ArchiveFileCopy created by another worker!")
+                # The ArchiveFileCopy record has been created by someone else
+                # between our initial .get() and the subsequent .create().
+                #
+                # In this case, we assume another worker from _this_ daemon
+                # has just imported the file, likely due to multiple idential
+                # import requests, so just mark the request we're working on as
+                # completed and let the other worker deal with fixing up the
+                # copy and doing all the post-import stuff
+                import_request_done(req, "duplicate")
+                return
 
-    import_request_done(req, "success")
+        import_request_done(req, "success")
 
-    # Run post-add actions, if any
-    ioutil.post_add(node.db, file_)
+        # Run post-add actions, if any.  Same transaction as the copy record
+        # (and the completion of the request): an imported file is never looked
+        # at again, so a DB error in between would lose its autosync/autoclean
+        # rules for good.
+        ioutil.post_add(node.db, file_)
 
     # Run the extension module's callback, if necessary
     if callable(callback):
